@@ -222,30 +222,33 @@ class Column:
                 col.parent = parent
             return col
 
-        source_columns = set()
+        # a dict as an ordered set: the order of the source columns (for SELECT * the order of the tables in FROM)
+        # decides the order of the expanded target columns, it must not depend on the hash seed
+        source_columns: dict[Column, None] = {}
+        tables = list(dict.fromkeys(alias_mapping.values()))
         for src_col, qualifier in self.source_columns:
             if qualifier is None:
                 if src_col == "*":
                     # select *
-                    for table in set(alias_mapping.values()):
-                        source_columns.add(_to_src_col(src_col, table))
+                    for table in tables:
+                        source_columns[_to_src_col(src_col, table)] = None
                 else:
                     # select unqualified column
                     source = _to_src_col(src_col, None)
-                    for table in set(alias_mapping.values()):
+                    for table in tables:
                         # in case of only one table, we get the right answer
                         # in case of multiple tables, a bunch of possible tables are set
                         source.parent = table
-                    source_columns.add(source)
+                    source_columns[source] = None
             else:
                 if alias_mapping.get(qualifier):
-                    source_columns.add(
+                    source_columns[
                         _to_src_col(src_col, alias_mapping.get(qualifier))
-                    )
+                    ] = None
                 else:
                     table = Table(qualifier)
                     if "." not in qualifier:
                         # same for qualifier
                         table.raw_name = qualifier
-                    source_columns.add(_to_src_col(src_col, table))
-        return source_columns
+                    source_columns[_to_src_col(src_col, table)] = None
+        return list(source_columns)
